@@ -112,6 +112,10 @@ def h_rel(mode, flags, nm, nd=None):
         part.assumptions |= {"log10/ln uninterpreted (hash-consed per argument); IEEE special values by kinds at the ignored positions",
                              "Models.fit called directly with an arbitrary real extinction pattern and scale pattern -2"}
         fx = fitfix.Fit()
+        rec = None
+        if mode == 'b' and nd is not None:
+            from .c02 import observe
+            rec = observe(fx)      # per-distance least-squares A_V at the boundary of optimal_scaling
         opts = dict(query_timeout_ms=60000)
         if mode == 'a':
             opts.update(kind_mode='fork', log_mode='ieee')
@@ -151,6 +155,8 @@ def h_rel(mode, flags, nm, nd=None):
                         fl2[j] = 4
                 B = variant(A, flags=fl2, F=F2, E=E2)
             c.vars = (A, B)
+            if rec is not None:
+                rec.clear()
             ia = A.fit(fx)
             ib = B.fit(fx) if B is not None else None
             return ia, ib
@@ -176,6 +182,11 @@ def h_rel(mode, flags, nm, nd=None):
                     cl.claim(c, conj(goals), '(d) confidence 1: a violating model has chi2 >= 1e30', inputs, replay_pair)
                     continue
                 sb = snapshot(out[1][1])
+                if mode == 'b' and rec is not None:
+                    ua, ub = (symnp._obj(su.value_of(x)).reshape(-1) for x in rec['os'][-2:])
+                    cl.claim(c, conj([C.same(x, y) for x, y in zip(ua, ub)]),
+                             '(b) limits never enter the least-squares solution (per-distance A_V; the reported distance may change with the penalties)')
+                    continue
                 if mode == 'b':
                     da = {m: (a, s) for m, a, s in zip(sa['mid'], sa['av'], sa['sc'])}
                     db = {m: (a, s) for m, a, s in zip(sb['mid'], sb['av'], sb['sc'])}
